@@ -109,6 +109,23 @@ def describe(pid, cfg, w, ctx):
         rep['harness_cmd'] = ['replay', 'bytes', 'set%d' % setn, ','.join(str(b) for b in bs)]
         rep['expected'] = tok_sc(w['expected'], en)
         rep['model_actual'] = tok_sc(w['actual'], en)
+    elif kind in ('two_seq', 'c13'):
+        # two byte streams separated by 999; first element: set (two_seq) or direction (c13)
+        head, rest = inp[0], inp[1:]
+        k = rest.index(999)
+        a, b = rest[:k], rest[k + 1:]
+        if kind == 'c13':
+            sa, sb = ('set2', 'set1')
+            first, second = (a, b) if head == 0 else (b, a)
+            fs, ss = (sa, sb) if head == 0 else (sb, sa)
+        else:
+            fs = ss = 'set%d' % head
+            first, second = a, b
+        rep['input_text'] = "%s bytes %s versus %s bytes %s" % (fs, ' '.join('%02x' % x for x in first), ss, ' '.join('%02x' % x for x in second))
+        rep['harness_cmd'] = ['replay', 'bytes', ss, ','.join(str(x) for x in second)]
+        rep['first_result'] = tok_sc(w['expected'], en)
+        rep['model_actual'] = tok_sc(w['actual'], en)
+        rep['expected'] = "the counterpart of " + tok_sc(w['expected'], en)
     elif kind == 'layout':
         form = {0: '', 1: 'Any.', 2: 'Ref.'}[inp[0]] if len(inp) > 4 else ''
         if len(inp) > 4:
